@@ -18,7 +18,7 @@ InSeq(x, s) == \E i \in DOMAIN s : s[i] = x
 Minus(s, drop) == SelectSeq(s, LAMBDA x : ~InSeq(x, drop))
 SeqSet(s) == {s[i] : i \in DOMAIN s}
 
-CmSource(names) == [names |-> names, part |-> <<>>, lim |-> 0, ngrp |-> 0, filt |-> FALSE, summ |-> FALSE]
+CmSource(names) == [names |-> names, part |-> <<>>, lim |-> -1, ngrp |-> 0, filt |-> FALSE, summ |-> FALSE]
 
 (* select: exactly the given columns in the given order (Select branch) *)
 CmSelect(M, cols) == [M EXCEPT !.names = cols]
